@@ -89,7 +89,7 @@ def setup_world(PART, a: Dict[str, Any]):
         comp = {}
         for el in E:
             v = a[t + el]
-            if not bounded(v, 0, K):
+            if not bounded(v, 0, PART.get("K" + el, K)):
                 return False
             comp[el] = v
         qv = a[t + "q"]
@@ -276,6 +276,12 @@ def partitions(tier, pid):
             out += _parts_for(sn, (0, 2, 4))
         for sn in SHAPES_Q2:
             out += _parts_for(sn, (0,))
+    # hydrogen counts up to 4 with carbon fixed: the multiplicity > 1 branches ('.[O]' * n, one template per [O])
+    out.append(("pipe[j>>q|H<=4,m=0]", {"shape": ["j>>q"], "E": ["C", "H"], "K": 2, "KH": 4, "fix": {"m1": 0, "jq": 0, "qq": 0, "jC": 1, "qC": 1}}, "prop"))
+    # two rows in one batch (id/index plumbing between stages)
+    for name, params, kind in partitions2(tier, pid):
+        if tier == "thorough" or (("row2=input-balanced" in name or "row2=mcs-fail" in name) and "m1=0" in name):
+            out.append((name, params, kind))
     return out
 
 
